@@ -52,6 +52,12 @@ def run(ck, rng, tier):
         kind = rng.choice(("general", "general", "perm", "zero_lead", "tri", "spd", "diag"))
         cond = rng.choice((1.0, 10.0, 1e3, 1e6)) if kind in ("general", "spd", "zero_lead") else 1.0
         M = structured(rng, n, kind, cond)
+        if c % 9 == 4 and n >= 2:
+            # small but non-zero entries: a well-conditioned matrix with one row / one diagonal entry in small units
+            kind, cond = "small_entries", 10.0
+            n = min(n, 7)
+            M = structured(rng, n, rng.choice(("general", "diag")), 10.0)
+            M[rng.randrange(n), :] *= rng.choice((5e-5, 2e-5))
         if abs(np.linalg.det(M)) < 1e-12 or np.linalg.cond(M) > 1e7:
             continue
         lines.append("square %s" % vf.fmt_mat(M.tolist(), n)); meta.append(("square", M, kind, cond))
@@ -108,7 +114,8 @@ def run(ck, rng, tier):
                             {"M": M.tolist()})
             if "det" in o:
                 d = np.linalg.det(M)   # LU-based (independent)
-                if abs(o["det"] - d) > 1e-9 * cond * max(1.0, abs(d)) * 10:
+                hadamard = float(np.prod(np.linalg.norm(M, axis=1)))
+                if abs(o["det"] - d) > 1e-9 * cond * abs(d) * 10 + 1e-12 * hadamard:
                     ck.fail("MatrixDeterminant", "det_value", "determinant %.12g vs product of LU pivots %.12g" % (o["det"], d), {"M": M.tolist()})
         elif kind == "lse":
             _, M, x, skind, cond = mt
